@@ -434,7 +434,7 @@ def _edge_loop(loop):
     return None
 
 
-def _adjacency_looped(ctx, fn, site, b, arrays):
+def _adjacency_looped(ctx, fn, site, b, arrays, do_rc=True, do_vals=True):
     if True:
         d, r, c = arrays
         # stores per array, per enclosing loop
@@ -446,6 +446,8 @@ def _adjacency_looped(ctx, fn, site, b, arrays):
                 stores[s.targets[0].value.id].append((s, loops[0] if loops else None))
         # rows / cols
         problems = []
+        if not do_rc:
+            stores[r], stores[c] = [], []
         rc = {}
         for arr in (r, c):
             for s, lp in stores[arr]:
@@ -457,18 +459,21 @@ def _adjacency_looped(ctx, fn, site, b, arrays):
                 if sl in rc.get(arr, {}):
                     problems.append(f"slot {sl[0]}*e+{sl[1]} of {arr} is stored twice")
                 rc.setdefault(arr, {})[sl] = (au.src(s.value), tuple(el[1]))
-        if not problems:
-            slots = sorted(rc.get(r, {}))
-            if slots != [(2, 0), (2, 1)] or sorted(rc.get(c, {})) != slots:
-                problems.append(f"rows are stored at slots {sorted(rc.get(r, {}))}, cols at {sorted(rc.get(c, {}))}: expected 2*e and 2*e+1 for both")
-            else:
-                (r0, ends), (r1, _) = rc[r][(2, 0)], rc[r][(2, 1)]
-                c0, c1 = rc[c][(2, 0)][0], rc[c][(2, 1)][0]
-                if not (r0 == c1 and r1 == c0 and r0 != r1 and {r0, r1} == set(ends) and len(ends) == 2):
-                    problems.append(f"edge entries are ({r0},{c0}) and ({r1},{c1}): expected (a,b) and (b,a) for the endpoints {list(ends)}")
-        ctx.check(not problems, "C08-S3", site, "adjacency_matrix: " + "; ".join(problems),
-                  "M[i,j] = M[j,i] = w for every edge (i,j): both transposed positions must be written", note="rows/cols: (a,b) at 2e, (b,a) at 2e+1")
+        if do_rc:
+            if not problems:
+                slots = sorted(rc.get(r, {}))
+                if slots != [(2, 0), (2, 1)] or sorted(rc.get(c, {})) != slots:
+                    problems.append(f"rows are stored at slots {sorted(rc.get(r, {}))}, cols at {sorted(rc.get(c, {}))}: expected 2*e and 2*e+1 for both")
+                else:
+                    (r0, ends), (r1, _) = rc[r][(2, 0)], rc[r][(2, 1)]
+                    c0, c1 = rc[c][(2, 0)][0], rc[c][(2, 1)][0]
+                    if not (r0 == c1 and r1 == c0 and r0 != r1 and {r0, r1} == set(ends) and len(ends) == 2):
+                        problems.append(f"edge entries are ({r0},{c0}) and ({r1},{c1}): expected (a,b) and (b,a) for the endpoints {list(ends)}")
+            ctx.check(not problems, "C08-S3", site, "adjacency_matrix: " + "; ".join(problems),
+                      "M[i,j] = M[j,i] = w for every edge (i,j): both transposed positions must be written", note="rows/cols: (a,b) at 2e, (b,a) at 2e+1")
         # values per weight branch
+        if not do_vals:
+            return
         nb = 0
         val_assigns = [s for s in au.stmts(fn.body) if isinstance(s, ast.Assign) and any(isinstance(t, ast.Name) and t.id == d for t in s.targets)]
         for s in val_assigns:
@@ -564,18 +569,23 @@ def _value_layout(e):
     return None
 
 
-def _adjacency_vectorised(ctx, fn, site, b, arrays, ctor):
+def _adjacency_vectorised(ctx, fn, site, b, arrays, ctor, do_rc=True, do_vals=True):
     d, r, c = arrays
     at = ctor
     lr, lc = _layout(b.resolve(ast.Name(id=r, ctx=ast.Load()), at=at)), _layout(b.resolve(ast.Name(id=c, ctx=ast.Load()), at=at))
     vl = _value_layout(b.resolve(ast.Name(id=d, ctx=ast.Load()), at=at))
+    if not do_rc:
+        lr = lc = ("inter", 0, 1)      # per-slot stores 2*e, 2*e+1 (checked by the store based rule) are the interleaved layout
+    if not do_vals:
+        vl = ("inter", None)
     if lr is None or lc is None or vl is None:
         what = [n for n, l in ((r, lr), (c, lc), (d, vl)) if l is None]
         ctx.fail("C08-S3", site, f"adjacency_matrix: neither per-edge stores at slots 2*e, 2*e+1 nor a recognised vectorised layout found for {', '.join(what)}",
                  "the two entries (a,b) and (b,a) of every edge and their common weight can no longer be related")
         return
     ok = lr[0] == lc[0] and lr[0] in ("inter", "block") and lr[1:] == lc[1:][::-1] and lr[1] != lr[2]
-    ctx.check(ok, "C08-S3", site, f"adjacency_matrix: rows are laid out as {lr} and cols as {lc}: expected the same layout with the two endpoint columns swapped",
+    if do_rc:
+      ctx.check(ok, "C08-S3", site, f"adjacency_matrix: rows are laid out as {lr} and cols as {lc}: expected the same layout with the two endpoint columns swapped",
               "M[i,j] = M[j,i] = w for every edge (i,j): both transposed positions must be written", note=f"rows {lr} / cols {lc}")
     ctx.check(vl[0] == lr[0], "C08-S3", site, f"adjacency_matrix: values are laid out per edge as `{vl[0]}` but rows / cols as `{lr[0]}`",
               "the two entries of an edge must carry that edge's weight", note=f"values follow the {lr[0]} layout: both entries of an edge share its weight")
@@ -626,12 +636,16 @@ def s3_adjacency(ctx):
     if not arrays:
         ctx.fail("C08-S3", site, "adjacency_matrix: sparse constructor `coo_matrix((vals, (rows, cols)))` not found", "")
     else:
-        has_stores = any(isinstance(s, ast.Assign) and len(s.targets) == 1 and isinstance(s.targets[0], ast.Subscript)
-                         and isinstance(s.targets[0].value, ast.Name) and s.targets[0].value.id in arrays[1:] for s in au.stmts(fn.body))
-        if has_stores:
-            _adjacency_looped(ctx, fn, site, b, arrays)
-        else:
-            _adjacency_vectorised(ctx, fn, site, b, arrays, ctor)
+        def stored(names):
+            return any(isinstance(s, ast.Assign) and len(s.targets) == 1 and isinstance(s.targets[0], ast.Subscript)
+                       and isinstance(s.targets[0].value, ast.Name) and s.targets[0].value.id in names for s in au.stmts(fn.body))
+        rc_loop, val_loop = stored(arrays[1:]), stored(arrays[:1])
+        ones = any(isinstance(v, ast.Call) and au.call_tail(v) in ("ones", "full") for s in au.stmts(fn.body) for nm, v in sym.split_assign(s) if nm == arrays[0])
+        val_loop = val_loop or (ones and rc_loop)
+        if rc_loop or val_loop:
+            _adjacency_looped(ctx, fn, site, b, arrays, do_rc=rc_loop, do_vals=val_loop)
+        if not (rc_loop and val_loop):
+            _adjacency_vectorised(ctx, fn, site, b, arrays, ctor, do_rc=not rc_loop, do_vals=not val_loop)
     # vertex_to_edge_operator
     fn = ctx.repo.func(ADJ, "vertex_to_edge_operator")
     site = ctx.site(ADJ, fn)
